@@ -102,13 +102,15 @@ fn judge_c07(case: &Case, inp: &Decoded, out: &Decoded, st: &mut Stats) {
     }
     let actual: Vec<(&RChunk, bool)> = out.chunks.iter().enumerate().filter(|(_, c)| is_aux(c)).map(|(i, c)| (c, i < out_first_idat)).collect();
     // match up, allowing the documented ICC replacement / recompression
+    let may_replace_icc = case.opts.strip != HStrip::None && keeps(b"sRGB");
     let same = |e: &RChunk, a: &RChunk| -> bool {
         if e.name == a.name && e.data == a.data { return true; }
         if &e.name == b"iCCP" && &a.name == b"iCCP" {
             let prof = |c: &RChunk| c.data.iter().position(|b| *b == 0).and_then(|k| c.data.get(k + 2..)).and_then(|z| inflate(z).ok());
             return prof(e).is_some() && prof(e) == prof(a);
         }
-        if &e.name == b"iCCP" && &a.name == b"sRGB" { return true; } // judged by C14
+        // "replaced as in C14": only when stripping is enabled and sRGB chunks are kept (the intent byte is C14's)
+        if &e.name == b"iCCP" && &a.name == b"sRGB" { return may_replace_icc; }
         false
     };
     // multiset comparison (each expected exactly once, nothing else)
@@ -119,7 +121,7 @@ fn judge_c07(case: &Case, inp: &Decoded, out: &Decoded, st: &mut Stats) {
             Some(k) => used[k] = true,
             None => {
                 // an iCCP may be dropped in favour of an existing sRGB (C14)
-                if &e.name == b"iCCP" && inp.chunks.iter().any(|c| &c.name == b"sRGB") { continue; }
+                if &e.name == b"iCCP" && may_replace_icc && inp.chunks.iter().any(|c| &c.name == b"sRGB") { continue; }
                 let wrong_side = actual.iter().any(|(a, _)| same(e, a));
                 st.fail(if wrong_side { "chunk-wrong-side" } else { "chunk-lost" },
                     format!("kept chunk {} ({} bytes) {} in the output", name_str(&e.name), e.data.len(), if wrong_side { "is on the other side of IDAT" } else { "is missing" }), replay.clone());
